@@ -55,7 +55,7 @@ TOLERANCES = {
     'curve_rel': '1e-9*D on [Pmin+0.05, Preq-0.05] (double rounding of pow is ~1e-16; tolJ*D within 1e-6 m of a '
                  'band edge where WNTR may already evaluate its cubic)',
     'jump': 'a change of q of more than tolJ*D over an interval of 2e-9 m is a discontinuity; '
-            'tolJ = 1e-6 + 32*eps*(max(|Pmin|,|Preq|)/0.05)^3: largest legitimate slope of f in the domain is 3/0.05 = 60 '
+            'tolJ = 1e-6 + 32*eps*(max(|Pmin|,|Preq|)/w)^3 with w = min(0.05, (Preq-Pmin)/2) the band width: largest legitimate slope of f in the domain is 3/0.05 = 60 '
             'per m => 1.2e-7 over 2e-9 m; the second term is the rounding of a smoothing cubic over a 0.05 m band written '
             'in powers of the absolute pressure (the representation of param.pdd_poly_coeffs_param / cubic_spline; '
             'measured 2e-6 at Pmin = 80 m); it is 1e-6 for pressures below 10 m and 7.7e-5 at 110 m',
@@ -70,7 +70,8 @@ EPS = 2.220446049250313e-16
 
 def tol_j(a, b):
     """jump / monotonicity / band tolerance as a fraction of D (see TOLERANCES['jump'])"""
-    return 1e-6 + 32.0 * EPS * (max(abs(a), abs(b)) / DELTA) ** 3
+    # the band is min(0.05, (Preq-Pmin)/2) wide since the band-overlap repair: a narrower band is worse conditioned
+    return 1e-6 + 32.0 * EPS * (max(abs(a), abs(b)) / min(DELTA, 0.5 * abs(b - a))) ** 3
 
 
 # ----------------------------------------------------------------------------- reference from the statement
